@@ -245,7 +245,7 @@ class Encoder:
             if s.write and s.acq in inc:
                 writes[s.obj].append(s)
         for s in tr.sections:
-            if s.acq not in inc or s is skip:
+            if s.acq not in inc or (skip is not None and any(s is k for k in skip)):
                 continue
             w = tr.writer_of(s)
             if w is not None:
@@ -293,7 +293,7 @@ class Encoder:
         return None
 
     # ---- causal prefix of a set of events
-    def closure(self, seeds):
+    def closure(self, seeds, free=()):
         tr = self.tr
         need = set()
         work = list(seeds)
@@ -330,7 +330,7 @@ class Encoder:
                 nt = self.notify_of(ix)
                 if nt is not None:
                     require(nt)
-            if ix in tr.sec_of_acq:
+            if ix in tr.sec_of_acq and not any(tr.sec_of_acq[ix] is f for f in free):
                 w = tr.writer_of(tr.sec_of_acq[ix])
                 if w is not None and w.rel is not None:
                     require(w.rel)
@@ -480,6 +480,20 @@ def monitors(tr, props):
         init = [0] if subj == 'behavior' else []
         if sorted(A) != sorted(init + allv):
             v.append(('C12', 'stable-observer', 'stable observer received %s, pushed %s' % (A, allv)))
+        # entitlement by time: an item whose emission began after `subscribe` returned must reach the joiner;
+        # an item whose emission ended before `unsubscribe` was called must have reached the leaver, one whose
+        # emission began after it returned must not
+        sub_end = calls.get(('subscribe', 'J'), [None, None])[1]
+        un_beg, un_end = calls.get(('unsubscribe', 'L'), [None, None])
+        for (k_, val_, src_), (b_, e_, s_, t_) in emits.items():
+            if k_ != 'n':
+                continue
+            if sub_end is not None and b_ > sub_end and val_ not in J:
+                v.append(('C12', 'joiner-missed-item', 'joining observer missed item %d pushed after its subscribe() had returned (got %s)' % (val_, J)))
+            if un_beg is not None and e_ is not None and e_ < un_beg and val_ not in L:
+                v.append(('C12', 'leaver-missed-item', 'leaving observer missed item %d pushed before unsubscribe() was called (got %s)' % (val_, L)))
+            if un_end is not None and b_ > un_end and val_ in L:
+                v.append(('C12', 'leaver-late-item', 'leaving observer received item %d pushed after unsubscribe() had returned' % val_))
         for name, src in srcs.items():
             if [x for x in A if x in src] != src:
                 v.append(('C12', 'stable-observer-order', 'stable observer: %s out of order: %s' % (name, A)))
@@ -660,6 +674,28 @@ def violation_queries(tr, enc, props):
                 eb = emits.get(val)
                 if eb is not None and not (eb > ue):
                     targets.append(('C05', 'delivered-after-unsubscribe', ue, eb))
+    if 'C12' in props and tr.meta.get('kind') == 'subj_join':
+        emit_end = {}
+        sub_end = None
+        un_beg = None
+        for ix, t, p in marks:
+            if p[0] == 'emit-' and p[2] == 'n':
+                emit_end[int(p[3])] = ix
+            elif p[0] == 'call-' and p[1] == 'subscribe' and p[2] == 'J':
+                sub_end = ix
+            elif p[0] == 'call+' and p[1] == 'unsubscribe' and p[2] == 'L':
+                un_beg = ix
+        gotJ = {v for v, _ in delivered.get('J', [])}
+        gotL = {v for v, _ in delivered.get('L', [])}
+        for val, eb in emits.items():
+            # a joiner is entitled to what is pushed after its subscribe() returned
+            if sub_end is not None and val not in gotJ and not (eb > sub_end):
+                targets.append(('C12', 'joiner-missed-item', sub_end, eb))
+            # a leaver is entitled to what was completely pushed before unsubscribe() was called
+            if un_beg is not None and val not in gotL and val in emit_end and not (emit_end[val] < un_beg):
+                targets.append(('C12', 'leaver-missed-item', emit_end[val], un_beg))
+            if val in gotL and 'L' in unsub_end and not (eb > unsub_end['L']):
+                targets.append(('C12', 'leaver-late-item', unsub_end['L'], eb))
     for prop, sig, first, then in targets[:12]:
         if base is None:
             base = enc.base(inc) + enc.rf_consistency(inc)
@@ -734,7 +770,7 @@ def flips(tr, enc, tried, limit):
             req = r.acq - 1 if r.acq > 0 and tr.ev[r.acq - 1]['t'] == r.task and tr.ev[r.acq - 1]['k'] == 'req' else r.acq
             pred = [i for i in tr.by_task[r.task] if i < req]
             seeds = ([pred[-1]] if pred else []) + ([w.rel] if w is not None else [])
-            inc = enc.closure(seeds) if seeds else set()
+            inc = enc.closure(seeds, free=(r, w)) if seeds else set()
             if r.acq in inc:
                 continue  # w causally depends on r
             inc2 = set(inc)
@@ -742,20 +778,43 @@ def flips(tr, enc, tried, limit):
             for i in tr.by_task[r.task]:
                 if i <= r.acq and i not in inc2:
                     inc2.add(i)
-            cons = enc.base(inc2) + enc.rf_consistency(inc2, skip=r)
-            O = enc.O
-            if w is not None:
-                cons.append(O[w.rel] < O[r.acq])
-            for w2 in writes[r.obj]:
-                if w2 is r or w2 is w or w2.acq not in inc2:
+            # (a) minimal causal prefix; (b) everything that preceded r in the trace, re-orderable but
+            # reads-from consistent (reaches classes in which two reads change at once, e.g. a lost wake-up)
+            inc3 = set(inc2)
+            forbidden = [s2 for s2 in writes[r.obj] if s2 is not w and s2 is not r and s2.task != r.task
+                         and (w is None or s2.acq > w.acq)]
+            last = []
+            for t, ixs in tr.by_task.items():
+                if t == r.task:
                     continue
-                if w is not None and w2.rel is not None and w2.rel in inc2:
-                    cons.append(z3.Or(O[w2.rel] < O[w.acq], O[r.acq] < O[w2.acq]))
-                else:
-                    cons.append(O[r.acq] < O[w2.acq])
-            order = enc.solve(cons, sorted(inc2))
-            if order is not None:
-                out.append(order)
+                cut = r.acq
+                for s2 in forbidden:
+                    if s2.task == t:
+                        q = s2.acq - 1 if s2.acq > 0 and tr.ev[s2.acq - 1]['t'] == t and tr.ev[s2.acq - 1]['k'] == 'req' else s2.acq
+                        cut = min(cut, q)
+                keep = [i for i in ixs if i < cut]
+                if keep:
+                    last.append(keep[-1])
+            if last:
+                inc3 |= enc.closure(last, free=(r, w))
+            if any(s2.acq in inc3 for s2 in forbidden):
+                inc3 = inc2
+            variants = [inc2] if inc3 == inc2 else [inc2, inc3]
+            for incv in variants:
+                cons = enc.base(incv) + enc.rf_consistency(incv, skip=(r, w))
+                O = enc.O
+                if w is not None:
+                    cons.append(O[w.rel] < O[r.acq])
+                for w2 in writes[r.obj]:
+                    if w2 is r or w2 is w or w2.acq not in incv:
+                        continue
+                    if w is not None and w2.rel is not None and w2.rel in incv:
+                        cons.append(z3.Or(O[w2.rel] < O[w.acq], O[r.acq] < O[w2.acq]))
+                    else:
+                        cons.append(O[r.acq] < O[w2.acq])
+                order = enc.solve(cons, sorted(incv))
+                if order is not None:
+                    out.append(order)
     return out
 
 
